@@ -20,8 +20,12 @@ MANIFEST = dict(
     text="Lean 4 theorems (XmpProps.C18) over a model with two independent interpreters of the linear-flow vocabulary "
          "(speed, absolute tempo, pattern delay, position jump; any order list incl. invalid entries and S3M/IT markers, "
          "restart positions, several sequences): Scan (scan_module + libxmp_scan_sequences) and Play (xmp_play_frame as a "
-         "per-tick machine). Proved: the scan terminates within a stated fuel, time accounting of scan and player agree "
-         "exactly (rational time, before the int truncation) row by row, the loop counter increments at the first re-entered row. "
+         "per-tick machine). Proved (partial): for every effect of the vocabulary the scan's time accounting advances by exactly the "
+         "time the per-tick player spends in the row (exact rational time, before the int truncation); inside a pattern scan and player "
+         "run in lockstep (same row trace, same exact clock); check_end_of_module increments the loop counter exactly when the visit "
+         "budget of the scan's end point is exhausted. NOT proved: the composition across orders (next_order vs the scan's order loop, "
+         "restart / entry point logic, jump rows) and the fuel bound of the scan; these are covered by the correspondence only "
+         "(the driver evaluates rowTrace(Play.run) = Scan trace and fuelOut = false on every generated module). "
          "The model is tied to src/scan.c, src/player.c, src/effects.c on every run by a differential correspondence on modules "
          "written in all four formats and loaded by the real loaders, and a direct oracle on the real library.",
     note="Trusted: Lean kernel (axioms propext/Classical.choice/Quot.sound only), the hand-written model XmpModel/LinFlow.lean, "
@@ -32,12 +36,8 @@ MANIFEST = dict(
     technique="Lean 4 simulation proof between two interpreters + differential correspondence against the C through real module files",
     design_ref="DESIGN.md section 4 C18",
 )
-REQUIRED = []   # filled in below once the theorems exist
-try:
-    from checks import c18_required as _req     # optional: generated list
-    REQUIRED = _req.REQUIRED
-except Exception:
-    pass
+REQUIRED = ["Xmp.LinFlow.C18_tick_exact", "Xmp.LinFlow.C18_row_accounting", "Xmp.LinFlow.C18_play_row",
+            "Xmp.LinFlow.C18_scan_eq_play_partial", "Xmp.LinFlow.C18_loop_count_partial"]
 
 FORMATS = ("mod", "xm", "s3m", "it")
 
@@ -500,8 +500,8 @@ def run(ck):
             last = cases[-1]["file"] if cases else sh[3][0]
             m = bypath.get(last)
             ck.violation("harness-abort:" + sig,
-                         {"fmt": m[1]["fmt"] if m else "?", "hex": m[3].hex() if m else "", "desc": m[1] if m else None,
-                          "stderr": err[-3000:]},
+                         {"fmt": (m[1]["fmt"] if m[1] else m[0].rsplit(".", 1)[-1]) if m else "?",
+                          "hex": m[3].hex() if m else "", "desc": m[1] if m else None, "stderr": err[-3000:]},
                          "scan/playback of a linear-flow module aborted (rc=%d): %s" % (rc, sig))
         model_text = "\n".join("\n".join(c["model_in"]) for c in cases if c["model_in"]) + "\n"
         model_cases = split_model(vlib.run_driver("drv_c18", model_text, timeout=3000)) if ck.lean_ok else None
